@@ -499,7 +499,16 @@ fn conversions(rep: &mut Report, tier: Tier) {
         }
     }
     // BTreeMap<String, Vec<Leaf>> and Option / Box / scalar conversions at an offset
+    // (key patterns: all distinct; all the same key; two alternating keys; the last key repeats
+    // the first - a wrong-kind value under a key that a later entry redefines is still a mismatch)
     for nkeys in 0..=tier.pick(3, 4) {
+      for pattern in 0..(if nkeys >= 2 { 4usize } else { 1 }) {
+        let key_name = |k: usize| match pattern {
+            0 => format!("k{k}"),
+            1 => "k0".to_string(),
+            2 => format!("k{}", k % 2),
+            _ => if k + 1 == nkeys { "k0".to_string() } else { format!("k{k}") },
+        };
         for inner in 0..=2usize {
             let total = nkeys * inner;
             for plant in (0..=total + nkeys).map(|p| if p == 0 { None } else { Some(p - 1) }) {
@@ -511,7 +520,7 @@ fn conversions(rep: &mut Report, tier: Tier) {
                     if k > 0 {
                         text.push(',');
                     }
-                    text.push_str(&format!(" \"k{k}\" : "));
+                    text.push_str(&format!(" \"{}\" : ", key_name(k)));
                     index += 2; // entry + key
                     if plant == Some(total + k) {
                         text.push_str("7");
@@ -558,6 +567,7 @@ fn conversions(rep: &mut Report, tier: Tier) {
                 }
             }
         }
+      }
     }
     // maps where an object is expected and something else is found (root and nested), keys that
     // do not parse as the key type, and the object-level entry points
